@@ -4,21 +4,90 @@ spec:     spec/ReproDoc.tla restricted to the dict interface (Ops = get/set/del)
           replaces the first occurrence keeping its spelling and comment (dropping other
           occurrences), adds an absent field at the end of its paragraph, deletion removes the
           field's lines only; start documents F/F2 put the edited paragraph between context
-          paragraphs and free comments (spec/MC_ReproDoc.tla)
+          paragraphs and free comments (spec/MC_ReproDoc.tla).
+          Field instances of the C05 documents G/G2 and of all recorded histories carry the
+          attribute nl ("the field's text ends in a newline", DESIGN 5/C05): a document without
+          final newline has nl = FALSE on its very last field, an add supplies it (REnsureNl) and
+          nothing ever takes a newline away - invariant DocWellFormed (a field that has a successor
+          in dump order ends in a newline: two fields are never glued) and action property
+          NlOnlySupplied, checked by TLC over every history of adds / deletes / replacements.
+          Assignments of a REJECTED value (blob BadV: not deb822 syntax for one field) are part of
+          every configuration: result ValueError, document unchanged (ErrAtomic, CommentsStay).
 binding:  (a) complete LTS replayed into debian._deb822_repro: after every call dump() must equal
               the concatenation of the untouched original texts and the new field text (locality),
-              and the value is read back under every case variant, also from a fresh parse
+              and the value is read back under every case variant, also from a fresh parse;
+              every history of <= 3 calls ending in a change is replayed, longer ones sampled
           (b) recorded get/set/del histories on random documents validated by TraceReproDoc.tla
+              (events carry nl per field; comparison modulo the newline at the very END only)
+negative controls: spec level MC_ReproDoc_neg_nl.cfg (REnsureNl <- identity: TLC must report
+          DocWellFormed violated); trace level: corrupted histories (wrong outcome, lost comment,
+          a non-last field without newline, a rejected assignment that drops a comment)
+
+API surface / domain (the complete table of entry points and input forms is in the docstring of
+harness/repro_common.py, shared with C10); what this check exercises of the statement:
+  operation of the statement               model action (ReproDoc.tla)       exercised by
+  p[k] = v, p[(k, i)] = v, update,         Assign -> RAssign (replace in     lts legs F F2 G G2 + trace leg,
+    setdefault (absent k),                   place keeping spelling/comment,   entry point rotating per call
+    set_field_to_simple_value,               add last + REnsureNl)
+    set_field_from_raw_string
+  the same calls with a value the API      Assign, v = BadV: ValueError,     lts legs (every state, every key: commented,
+    rejects: continuation line without       doc' = doc; with an unusable      uncommented, absent, duplicated) + trace leg
+    leading blank, empty / blank-only        (name, i) as well either          (1 assignment in 5; also followed by valid
+    inner line, another field's line,        error (LookupOrValueError)        ones); IN the domain: "differs only inside
+    comment as last line, raw text w/o                                         that field" holds for the next valid edit
+    final newline, newline given to                                            only if the failed one changed nothing;
+    set_field_to_simple_value                                                  ErrAtomic is a property of the model
+  del p[k], del p[(k, i)], pop,            Del                               lts legs + trace leg
+    remove_kvpair_element
+  p[k], get, configured_view()[k], in,     Get / check_state                 after every call, every case variant
+    len, iteration, (k, i) lookup
+  histories on a document WITHOUT final    nl attribute, REnsureNl,          lts legs G (unique fields) and G2 (duplicated
+    newline: add, add, delete the first      DocWellFormed, NlOnlySupplied     fields), edited paragraph last, its last field
+    added; delete + re-add; replace last                                       commented and unterminated; trace leg: 2 of 3
+                                                                               documents ending in a paragraph, half of the
+                                                                               calls on that paragraph, extra adds
+  dump(), dump(fd), convert_to_text(),     doc (text = concatenation of      check_state after every call
+    fresh parse of the dump                  instance texts)
+  unspecified (executed, no verdict): whether the document ends in a newline after the last field was
+    replaced or after the field following it was deleted again (compared modulo that one newline:
+    eq_mod_final_newline / NormEnd); which error a rejected value with an unusable key raises;
+    formatting of a newly written value beyond name, comment, read-back value.
+  out of domain: deleting the only field of a paragraph; values with characters str.splitlines treats
+    as line ends (tlc-idioms note; the pools avoid them); sort/move/insert operations (C10).
+input side (SIZE_STRESS part 4): the start document of every replay and of every recorded history
+  reaches the parser through one of 17 kinds of line source / file object (list / iterator / generator
+  of str or bytes lines, StringIO, BytesIO, real file text / binary / unbuffered, BufferedReader over
+  a short-read raw stream, GzipFile / BZ2File / LZMAFile over memory or a real compressed file, gzip
+  text wrapper, SpooledTemporaryFile binary / text) and 6 % of the concretizations steer a line end
+  (inside a value, between fields, at a separator, at the very end - also the unterminated end) to
+  offset 2^k-1 / 2^k / 2^k+1, k = 9..17, in bytes or code points; the expectation is form-independent
+  (same TLA+ case); evidence in ctx.extra["file_object_kinds"] and ctx.extra["aligned_cases"].
+  Output side: dump(fd) into a binary file object is compared with dump() after every deep step.
 """
 import repro_common as rc
 
 MANIFEST = dict(
-    technique="TLA+ spec ReproDoc restricted to the dict interface, model-checked by TLC over closed configurations (edited paragraph between context paragraphs and comments); complete LTS replayed into the format-preserving parser; recorded histories validated by TLC (TraceReproDoc)",
-    text="Locality is decided literally: the expected dump after each set/add/delete is the concatenation of the byte-identical original texts of all untouched fields, comments and separators with the new field's text at the model's position (an added field last in its paragraph, a replaced field in place with its own comment lines and original spelling), modulo the one permitted final newline; read-back is checked through every case variant of the key on the live object and on a fresh parse of the dump. TLC enumerates every reachable state of the closed configurations (unique and duplicated fields, single- and multi-line new values, both spellings) and the harness replays every transition (quick: a seeded sample) and random walks over many layouts (tabs, value on next line, inner comments, non-ASCII, with/without final newline); random histories on random documents are validated by TLC.",
+    technique="TLA+ spec ReproDoc restricted to the dict interface (field instances with a final-newline attribute, rejected assignments), model-checked by TLC over closed configurations (edited paragraph between context paragraphs and comments, or last in a document without final newline); complete LTS replayed into the format-preserving parser; recorded histories validated by TLC (TraceReproDoc)",
+    text="Locality is decided literally: the expected dump after each set/add/delete is the concatenation of the byte-identical original texts of all untouched fields, comments and separators with the new field's text at the model's position (an added field last in its paragraph, a replaced field in place with its own comment lines and original spelling), modulo the one permitted final newline - which the model tracks per field (attribute nl: only the very last field of the document may lack it, an add supplies it, nothing takes it away; invariants DocWellFormed / NlOnlySupplied) so that histories such as add, add, delete-the-first on a document without final newline are decided exactly; an assignment the setters reject (ValueError) must leave every byte, comment lines included, where it was; read-back is checked through every case variant of the key on the live object and on a fresh parse of the dump. TLC enumerates every reachable state of the closed configurations (unique and duplicated fields, single- and multi-line and rejected new values, both spellings) and the harness replays every transition (quick: every history of up to three calls that ends in a change, and a seeded sample of the longer ones) and random walks over many layouts (tabs, value on next line, inner comments, non-ASCII, with/without final newline); random histories on random documents are validated by TLC.",
     note="Small-scope: 3 names, 3-field paragraphs; layouts and values sampled per replay. The exact formatting of a newly written value is a diagnostic, the verdict needs name, kept comment, read-back value and untouched surroundings. Trusted: TLC, concretizer, projection by text lookup.",
     design="5 (C05)")
 
-OPS = ["get", "set", "set", "set", "del"]
+OPS = ["get", "set", "set", "set", "del", "del"]
+VALS = (rc.NEWS, rc.NEWM, rc.NEWS, rc.NEWM, rc.BAD)      # one assignment in five is one the setters reject
+
+
+def PREFER(e, depth):
+    return depth <= 1 or (depth == 2 and e["from"] != e["to"])
+
+
+def nl_negative_control(ctx):
+    """non-vacuity of DocWellFormed: an add that does not supply the missing newline is reported"""
+    import core
+    neg = ctx.tlc("MC_ReproDoc", "MC_ReproDoc_neg_nl.cfg", workers=1, count=False)
+    if neg.violated != "DocWellFormed":
+        raise core.MachineryError("negative control: an add that leaves the previous field unterminated is not "
+                                  "rejected by DocWellFormed (%r)" % (neg.violated,))
+    ctx.extra["negative_control_add_without_newline"] = neg.violated
 
 
 def run(ctx):
@@ -27,15 +96,26 @@ def run(ctx):
         "closed configurations over 3 names with context paragraphs; layouts and values concretized per replay (seeded)",
         "dump compared modulo one newline at the very end of the document",
         "deleting the only field of a paragraph is outside the domain",
+        "a rejected value together with an unusable (name, i): either error accepted",
     ]
+    also = [lambda: nl_negative_control(ctx)]
+    # every history of up to three calls whose last call changes the document is replayed (add X, add Y,
+    # delete X; replace, delete, add again ...), longer ones as a seeded sample and as random walks
+    prefer = PREFER
     if quick:
-        rc.lts_legs(ctx, [("MC_ReproDoc_F.cfg", (1, 2, 3), 2200, 80, 20, 1),
-                          ("MC_ReproDoc_F2.cfg", (1, 2, 3), 2200, 80, 20, 1)])
-        rc.trace_leg(ctx, 300, 20, OPS)
+        # F2q / G2q: the duplicated-fields configurations with one spelling for new fields (a quarter of the
+        # edges; both spellings in F / G and, for duplicated fields, in the thorough tier and the trace leg)
+        rc.lts_legs(ctx, [("MC_ReproDoc_F.cfg", (1, 2, 3), 1300, 40, 20, 1),
+                          ("MC_ReproDoc_F2q.cfg", (1, 2, 3), 1500, 40, 20, 1),
+                          ("MC_ReproDoc_G.cfg", (1, 2, 3), 1500, 40, 20, 1),
+                          ("MC_ReproDoc_G2q.cfg", (1, 2, 3), 1200, 40, 20, 1)], also, prefer, fast=True)
+        rc.trace_leg(ctx, 300, 20, OPS, nl=True, vals=VALS)
     else:
-        rc.lts_legs(ctx, [("MC_ReproDoc_F.cfg", (1, 2, 3), 10 ** 9, 1500, 40, 3),
-                          ("MC_ReproDoc_F2.cfg", (1, 2, 3), 10 ** 9, 1500, 40, 3)])
-        rc.trace_leg(ctx, 6000, 30, OPS)
+        rc.lts_legs(ctx, [("MC_ReproDoc_F.cfg", (1, 2, 3), 10 ** 9, 1500, 40, 2),
+                          ("MC_ReproDoc_F2.cfg", (1, 2, 3), 10 ** 9, 1500, 40, 2),
+                          ("MC_ReproDoc_G.cfg", (1, 2, 3), 10 ** 9, 1500, 40, 2),
+                          ("MC_ReproDoc_G2.cfg", (1, 2, 3), 10 ** 9, 1500, 40, 2)], also, prefer, fast=True)
+        rc.trace_leg(ctx, 6000, 30, OPS, nl=True, vals=VALS)
 
 
 def replay(ctx, case):
